@@ -9,6 +9,7 @@ import (
 	"log/slog"
 	"net"
 	"os"
+	"runtime"
 	"sync"
 	"sync/atomic"
 	"testing"
@@ -569,6 +570,9 @@ func childMain() {
 	var sc Scenario
 	if err == nil {
 		err = json.Unmarshal(in, &sc)
+	}
+	if err == nil && sc.Procs > 0 {
+		runtime.GOMAXPROCS(sc.Procs)
 	}
 	if err != nil {
 		fmt.Fprintln(os.Stderr, "HARNESS-ERROR cannot read scenario:", err)
